@@ -11,6 +11,27 @@ pub fn reaching_definitions(
     fixed_point::fixed_point_forward(rda, function)
 }
 
+/// The definitions which reach the entry of `location`: the union of the
+/// reaching definitions (which describe the state after a location) of its
+/// predecessors.
+pub(crate) fn reaching_in(
+    function: &il::Function,
+    reaching_definitions: &HashMap<il::ProgramLocation, LocationSet>,
+    location: &il::ProgramLocation,
+) -> Result<LocationSet, Error> {
+    let location = location.function_location().apply(function)?;
+    let location = il::RefProgramLocation::new(function, location);
+    let mut reaching = LocationSet::new();
+    for predecessor in location.backward()? {
+        if let Some(definitions) = reaching_definitions.get(&predecessor.into()) {
+            for definition in definitions.locations() {
+                reaching.insert(definition.clone());
+            }
+        }
+    }
+    Ok(reaching)
+}
+
 // We require a struct to implement methods for our analysis over.
 struct ReachingDefinitionsAnalysis<'r> {
     function: &'r il::Function,
